@@ -3,6 +3,7 @@ package geomgen
 import (
 	"fmt"
 	"math"
+	"strings"
 
 	"github.com/ctessum/geom"
 )
@@ -138,11 +139,13 @@ func Render(g geom.Geom) string {
 		if p == nil {
 			return "nil"
 		}
-		s := "["
+		var s strings.Builder
+		s.WriteString("[")
 		for _, q := range p {
-			s += fmt.Sprintf("(%x %x)", math.Float64bits(q.X), math.Float64bits(q.Y))
+			fmt.Fprintf(&s, "(%x %x)", math.Float64bits(q.X), math.Float64bits(q.Y))
 		}
-		return s + "]"
+		s.WriteString("]")
+		return s.String()
 	}
 	switch t := g.(type) {
 	case nil:
